@@ -19,7 +19,8 @@ WTARGET = os.path.join(R.CACHE, 'witness-target' + _sfx)
 CASES = [
     (r'k\.atomic', r'.*', ['atomic']),
     (r'k\.atomic_bv', r'.*', ['bitvec_stale', 'bitvec_ops']),
-    (r'select(9|_small|_zero_small)?\.lookup.*', r'.*', ['select_all', 'select_inv']),
+    (r'select(_small|_zero_small)\.lookup.*', r'.*', ['select_all', 'select_inv', 'select_big']),
+    (r'select9?\.lookup.*', r'.*', ['select_all', 'select_inv']),
     (r'k\.select_(zero_)?small_complete|select\..*', r'.*', ['select_all']),
     (r'k\.bfv_unaligned', r'.*', ['bfv_unaligned']),
     (r'k\.bfv_apply', r'.*', ['bfv_apply']),
@@ -136,6 +137,7 @@ PROP_TWINS = {
     'C04': ['ef_dict', 'ef_big'],
     'C08': ['vfilter', 'vfunc'],
     'C11': ['shard_edge', 'vfunc'],
+    'C16': ['shard_edge', 'vfunc', 'vfilter'],
     'C05': ['bfv_misc'],
     'C20': ['lenders', 'lenders_selfcons', 'lenders_take'],
     'C06': ['bitvec_ops', 'bitvec_stale'],
